@@ -69,7 +69,9 @@ class McScript:
     # the last entry of the translation / angle / length menus is a *tiny* move: it produces
     # near-ties of the overlap measure and barely stretched bonds (tolerance shortcuts)
     TRANS = (np.array([0.30, -0.20, 0.10]), np.array([-0.30, 0.20, -0.10]), np.array([1e-6, -1e-6, 1e-6]))
-    AXES = (np.array([0.3, -0.8, 0.5]), np.array([-0.9, 0.1, 0.4]))
+    # the second axis has length 1 + 4e-6: inside any "already a unit vector" tolerance, yet not one
+    AXES = (np.array([0.3, -0.8, 0.5]),
+            np.array([-0.9, 0.1, 0.4]) / float(np.linalg.norm([-0.9, 0.1, 0.4])) * (1.0 + 4e-6))
     THETAS = (0.4, -1.3, 1e-6, 5e-4)       # 5e-4: inside any "small angle" shortcut, yet visible at 1e-9 nm
     HELPERS = (np.array([0.31, 0.77, 0.52]), np.array([0.93, 0.12, 0.64]))
     LENGTHS = (0.7, -1.3, 2e-3)    # in units of sigma
